@@ -529,6 +529,8 @@ void Exec::do_step(const Step& st, const Client& cl, int depth) {
         orc_eval("C17");
         if (matches() == 1) {
           viol("C17", "C17.select", "masa_select_mms", "after the C masa_select_mms(\"" + h + "\") the selected instance is not the one registered under that handle; the C++ select reaches it");
+          // the C function is one of the two documented ways to select (tests/c_misc.c): it did not make the handle the target
+          viol("C12", "C12.select.c_api", "masa_select_mms", "the C masa_select_mms(\"" + h + "\") did not make that handle the target of the calls that follow (the C++ select does)");
           return;
         }
       }
@@ -634,11 +636,14 @@ void Exec::do_step(const Step& st, const Client& cl, int depth) {
       if (sol.name == "sod_1d" && admissible) {
         // any Gamma > 1 with 0 < mu < 1 keeps the root of sod_1d's pressure function bracketed, so mu need not be
         // the value derived from Gamma (an evaluator that re-derives it is then visible)
-        static const double mufac[4] = {1.0, 1.0, 0.9, 1.1};
+        // The larger factors move mu far enough to move the post-shock pressure (the bisection in sod_1d stops early,
+        // so a 10% change of mu often leaves the root where it was); all products stay below 1 for the Gamma pool.
+        static const double mufac[8] = {1.0, 1.0, 0.9, 1.1, 2.5, 4.0, 3.0, 0.5};
         S g = S(g_sod_gamma[(size_t)st.c % 6]);
         g += g * S((st.a / 4) % 3) * std::numeric_limits<S>::epsilon();  // 0, 1 or 2 ulps away: "changed, but only in the last bits"
-        S mu = ((g - S(1.e0)) / (g + S(1.e0))) * S(mufac[(size_t)st.a % 4]);
-        writes.push_back(std::make_pair(std::string("Gamma"), g));
+        S mu = ((g - S(1.e0)) / (g + S(1.e0))) * S(mufac[(size_t)st.a % 8]);
+        // one store in three leaves Gamma untouched and moves mu alone (state keyed on Gamma only is then stale)
+        if ((st.a / 8) % 3 != 0 || !cur->wild.empty()) writes.push_back(std::make_pair(std::string("Gamma"), g));
         writes.push_back(std::make_pair(std::string("mu"), mu));
       } else if (sol.name == "sod_1d" || sol.fixture) {
         // wild values on sod_1d could make a later (skipped) evaluation fatal; keep them but mark the instance
@@ -1228,6 +1233,52 @@ void Exec::do_step(const Step& st, const Client& cl, int depth) {
           if (it->second.stale)
             viol("C11", "C11.lastset.stale", sol.name + ":" + g_evals[rc.ev].shortname + "/" + g_evals[rc.ev].sig,
                  "the instance keeps returning the bits it returned before its parameters were changed, a fresh process given the values last set returns other bits");
+          // Attribution to C12 (isolation): the session's value is wrong for this handle's parameters; if it is
+          // bit for bit what a fresh process computes from the parameters of ANOTHER live handle of the same
+          // solution (same precision, other values), then that handle's state is visible through this one.
+          int asked = 0;
+          bool leaked = false;
+          auto probe_one = [&](const std::string& oname, bool replaced, const FreshReq& ro, const std::string& what) {
+            if (leaked || asked >= 12) return;
+            Bits ob;
+            ++asked;
+            if (!fresh_request(ro, ob)) return;
+            log.u64(ob.lo);
+            if (ob == it->second.first && ob != fb) {
+              leaked = true;
+              orc_eval("C12");
+              viol("C12", "C12.leak", sol.name + ":" + g_evals[rc.ev].shortname + "/" + g_evals[rc.ev].sig,
+                   "handle '" + h + "' evaluates to [" + fmt_bits(it->second.first) + "], which is not what its own parameters give in a fresh process [" + fmt_bits(fb) +
+                       "] but exactly what they give with " + what + (replaced ? " last held by the replaced instance of handle '" : " of handle '") + oname +
+                       "' in their place: " + (replaced ? "the re-initialised handle is not independent of the instance it replaced" : "another handle's parameter state is visible through this one"));
+            }
+          };
+          auto probe_other = [&](const std::string& oname, const Inst& oi, bool replaced) {
+            if (leaked || oi.sol != inst.sol) return;
+            if (oi.p == inst.p && oi.v == inst.v) return;
+            FreshReq ro = rq;
+            ro.p.assign(oi.p.begin(), oi.p.end());
+            ro.v.assign(oi.v.begin(), oi.v.end());
+            probe_one(oname, replaced, ro, "all parameters");
+            // one vector, then one scalar, of the other instance in place of this handle's own
+            for (size_t i = 0; i < rq.v.size(); ++i) {
+              auto ov = oi.v.find(rq.v[i].first);
+              if (ov == oi.v.end() || ov->second == rq.v[i].second) continue;
+              FreshReq r1 = rq;
+              r1.v[i].second = ov->second;
+              probe_one(oname, replaced, r1, "the vector " + rq.v[i].first);
+            }
+            for (size_t i = 0; i < rq.p.size(); ++i) {
+              auto op = oi.p.find(rq.p[i].first);
+              if (op == oi.p.end() || bits_of(op->second) == bits_of(rq.p[i].second)) continue;
+              FreshReq r1 = rq;
+              r1.p[i].second = op->second;
+              probe_one(oname, replaced, r1, "the parameter " + rq.p[i].first);
+            }
+          };
+          for (auto& oh : R.m)
+            if (oh.first != h) probe_other(oh.first, oh.second, false);
+          for (auto gi = R.grave.rbegin(); gi != R.grave.rend(); ++gi) probe_other(gi->first, gi->second, true);
         }
       }
       return;
